@@ -55,6 +55,8 @@ func main() {
 		os.Exit(cmdLayout(os.Args[2:]))
 	case "selftest":
 		os.Exit(cmdSelftest(os.Args[2:]))
+	case "errscan":
+		os.Exit(cmdErrscan(os.Args[2:]))
 	case "list":
 		var ids []string
 		for id := range registry {
